@@ -67,8 +67,13 @@ import Duckling.Lemmas.EvalGroup
                                  takes a leading `-` (token still open), digits close it, the first `.` makes it a decimal, the first character
                                  that is neither digit nor dot ends it unconsumed — `C04_lex_expr` / `C04_expr_value` / `C04_group_value` cover
                                  such leaves; `C04_neg_literal_value`: `-ddd` is the integer −ddd (an integer, not a float: the `fix:`).
-                                 What the scanner theorems still leave out: names beginning with T/F inside compound expressions (alone they are
-                                 `C20_readable_tf`) — correspondence and the reference-evaluator oracle there (`partial` in that respect).
+  * **names beginning with T or F** (`Lemmas/LexNameTF`): a leaf may also be such a name (`Atom.tfname`: `Total`, `Flag`, `TRx`, …) that departs
+                                 from TRUE / FALSE before either ends: the Boolean class takes the first characters, gives up at the departure,
+                                 the scanner returns to the start of the name with that class black-listed and the Variable class reads it —
+                                 anywhere in a compound expression, closed by the next delimiter or the end of the text.
+                                 With this every kind of leaf is covered; what remains outside the scanner theorems are exactly the names that
+                                 are a prefix of, equal to or an extension of TRUE / FALSE (the known finding D14, where the statement is false
+                                 of the code).
 -/
 namespace Duckling.Props.C04
 open Duckling
@@ -397,5 +402,13 @@ example : GoodLit "12".toList none ∧ litText true "12".toList none = "-12".toL
     (match numberValue "2.5".toList with | .ok (.flt 5 1) => true | _ => false) = true := by
   refine ⟨⟨by decide, by decide, fun f h => by cases h⟩, by decide, ⟨by decide, by decide, fun f h => ?_⟩, by decide, by decide⟩
   cases h; decide
+
+/-- non-vacuity for names beginning with T / F: `Total` (departs from TRUE at its second letter) among the names in scope -/
+example : GoodAtom ["Total".toList, "To".toList] (.tfname "Total".toList) := by
+  refine ⟨by decide, "TRUE".toList, 0, 1, by decide, by decide, boolGivesUp_true, ⟨by decide, by decide, by decide, by decide, ?_⟩, ?_⟩
+  · intro h1 h2; show 'o' ≠ 'R'; decide
+  · intro h
+    exact ⟨(show NameStart0 'T' from ⟨by decide, by decide, by decide, by decide, by decide⟩), (show ('T' == '/') = false from by decide),
+      (show ('T' == '=') = false from by decide)⟩
 
 end Duckling.Props.C04
